@@ -3398,6 +3398,12 @@ def main(repo, outdir):
             failures.append((name, str(ex)))
             res[name] = STUB.format(msg=str(ex).replace("*)", "* )"))
             return
+        except Exception as ex:  # noqa: BLE001  a generator that crashes on this source fails closed like one that refuses it
+            import traceback
+            msg = f"the generator stopped with {type(ex).__name__}: {ex} ({traceback.format_exc().strip().splitlines()[-3].strip()[:200]})"
+            failures.append((name, msg))
+            res[name] = STUB.format(msg=msg.replace("*)", "* )"))
+            return
         if isinstance(out, tuple):
             res[name] = out[0]
             assumptions.update(out[1])
